@@ -351,9 +351,9 @@ def writer_contracts(wr, plain):
         '[C09:udata-at-word-size] !wsize_ok(size as nat) ==> res == Err::<(), Error>(Error::UnsupportedWordSize(size))',
         ERR_UNCH])
     wr.splice('write_eh_pointer_data', ret='res', ensures=[
-        f'[C09:eh-data] res is Ok ==> (eh_data_op(val, format, size) matches Some(op) && emitted({O}, {F}, op)) && eh_data_fits(val, format, size)',
-        '[C09:eh-data-reject] eh_data_op(val, format, size) is None ==> res == Err::<(), Error>(Error::UnsupportedPointerEncoding(format))',
-        '[C09:eh-data-too-large] eh_data_op(val, format, size) is Some && !eh_data_fits(val, format, size) ==> res is Err',
+        f'[C09:eh-data][C14:eh-pointer-data] res is Ok ==> (eh_data_op(val, format, size) matches Some(op) && emitted({O}, {F}, op)) && eh_data_fits(val, format, size)',
+        '[C09:eh-data-reject][C14:eh-pointer-data-reject] eh_data_op(val, format, size) is None ==> res == Err::<(), Error>(Error::UnsupportedPointerEncoding(format))',
+        '[C09:eh-data-too-large][C14:eh-pointer-data-too-large] eh_data_op(val, format, size) is Some && !eh_data_fits(val, format, size) ==> res is Err',
         ERR_UNCH])
     if not plain:
         wr.splice('write_initial_length', ret='res', ensures=[
